@@ -11,7 +11,8 @@ from . import solver as S
 
 def generate(rng, idx, tier, variant):
     prog = scripts.gen_program(rng, max_eq=4, max_lag=rng.choice([0, 1, 2, 3]), max_lead=rng.choice([0, 0, 1, 2, 3]), allow_funcs=True)
-    lags, leads = prog['lags'], prog['leads']
+    build = probes.build_options(rng, prog)
+    lags, leads = probes.expected_lags_leads(prog['lags'], prog['leads'], build)
     n = lags + leads + rng.randint(1, 6)
     sp = {'type': rng.choice(spans.TYPES), 'n': n, 'origin': rng.choice([0, 2, 5])}
     spec = {
@@ -22,6 +23,10 @@ def generate(rng, idx, tier, variant):
         'reads': prog['reads'],
         'lags': lags,
         'leads': leads,
+        'lags_script': prog['lags'],
+        'leads_script': prog['leads'],
+        'declared': prog['declared'],
+        'build': build,
         'span': sp,
         'init': scripts.gen_data(rng, prog, n),
         'init_via': rng.choice(['dict', 'dict', 'kwargs', 'kwargs-shared']),
@@ -112,9 +117,9 @@ def execute(schedule, ctx):
     fsic = import_fsic()
     spec = schedule['spec']
     try:
-        m, span, endo, check, exo = S.build(fsic, spec)
-    except Exception as e:
-        ctx.log('build-failed', type(e).__name__)
+        m, span, endo, check, exo = S.build(fsic, spec, ctx)
+    except S.BuildFailed:
+        ctx.log('build-failed')
         return
     n = len(span)
     cls = type(m)
